@@ -56,15 +56,21 @@ Put(i, o) == [heap EXCEPT ![i] = o]
 \* ------------------------------------------------------------------------
 \* Constructors
 \* ------------------------------------------------------------------------
-ANewMeasure(cls, d, R, s) ==
+\* om: the optional constructor arguments that are OMITTED in the call (subset of {"nu", "ln_beta", "g"}); the documented
+\* defaults are nu = 0, ln_beta = 0, g = 1
+OmitSeq(om) == SelectSeq(<<"g", "ln_beta", "nu">>, LAMBDA x : x \in om)
+ANewMeasureO(cls, d, R, s, om) ==
     LET qL == Pick(IF cls = "DiagMeasure" THEN DPDm(d, s) ELSE SPDm(d, s), R, s)
         qn == Pick(VEC(d), R, s)
         qb == Pick(LNB, R, s)
-        o  == MkObj(cls, MkSeq(R, LAMBDA i : QM(qL[i])), MkSeq(R, LAMBDA i : QV(qn[i])),
-                    MkSeq(R, LAMBDA i : LNQ(QS(qb[i]))))
-    IN Emit(Append(heap, o),
-            Step("NewMeasure", [cls |-> cls, Lambda |-> qL, nu |-> qn, ln_beta |-> qb], NoObj,
-                 NextId, ExpectObj(o), 0, NoObj, NoObj))
+        o  == MkObj(cls, MkSeq(R, LAMBDA i : QM(qL[i])),
+                    MkSeq(R, LAMBDA i : IF "nu" \in om THEN ZeroVec(d) ELSE QV(qn[i])),
+                    MkSeq(R, LAMBDA i : IF "ln_beta" \in om THEN LNQ(0) ELSE LNQ(QS(qb[i]))))
+    IN /\ om \subseteq {"nu", "ln_beta"}
+       /\ Emit(Append(heap, o),
+               Step("NewMeasure", [cls |-> cls, Lambda |-> qL, nu |-> qn, ln_beta |-> qb, omit |-> OmitSeq(om)], NoObj,
+                    NextId, ExpectObj(o), 0, NoObj, NoObj))
+ANewMeasure(cls, d, R, s) == ANewMeasureO(cls, d, R, s, {})
 
 ANewPdf(cls, mode, d, R, s) ==
     LET qS == Pick(IF cls = "DiagPDF" THEN DPDm(d, s) ELSE SPDm(d, s), R, s + 1)
@@ -102,23 +108,27 @@ ANewPdfInt(d, R, s) ==
             Step("NewPdf", [cls |-> "PDF", mode |-> "S", Sigma |-> qS, mu |-> qm, exact |-> TRUE], NoObj,
                  NextId, ExpectObj(o), 0, NoObj, NoObj))
 
-ANewFactor(cls, d, R, s) ==
+FactorOptional(cls) == CASE cls = "Factor" -> {"nu", "ln_beta"} [] cls = "Rank1" -> {"nu", "ln_beta", "g"}
+                         [] cls = "Linear" -> {"ln_beta"} [] cls = "Const" -> {}
+ANewFactorO(cls, d, R, s, om) ==
     LET qL == Pick(SPDm(d, s), R, s + 2)
         qn == Pick(VEC(d), R, s + 1)
         qb == Pick(LNB, R, s + 1)
         qv == Pick(VEC2(d), R, s)
         qg == Pick(POS, R, s)
-        nu == MkSeq(R, LAMBDA i : QV(qn[i]))
-        lb == MkSeq(R, LAMBDA i : LNQ(QS(qb[i])))
+        nu == MkSeq(R, LAMBDA i : IF "nu" \in om THEN ZeroVec(d) ELSE QV(qn[i]))
+        lb == MkSeq(R, LAMBDA i : IF "ln_beta" \in om THEN LNQ(0) ELSE LNQ(QS(qb[i])))
         o  == CASE cls = "Factor" -> NewFactor(MkSeq(R, LAMBDA i : QM(qL[i])), nu, lb)
-                [] cls = "Rank1"  -> NewRank1(MkSeq(R, LAMBDA i : QV(qv[i])), MkSeq(R, LAMBDA i : QS(qg[i])), nu, lb)
+                [] cls = "Rank1"  -> NewRank1(MkSeq(R, LAMBDA i : QV(qv[i])), MkSeq(R, LAMBDA i : IF "g" \in om THEN 1 ELSE QS(qg[i])), nu, lb)
                 [] cls = "Linear" -> NewLinear(nu, lb)
                 [] cls = "Const"  -> NewConst(lb, d)
-        a  == CASE cls = "Factor" -> [cls |-> cls, Lambda |-> qL, nu |-> qn, ln_beta |-> qb]
-                [] cls = "Rank1"  -> [cls |-> cls, v |-> qv, g |-> qg, nu |-> qn, ln_beta |-> qb]
-                [] cls = "Linear" -> [cls |-> cls, nu |-> qn, ln_beta |-> qb]
-                [] cls = "Const"  -> [cls |-> cls, ln_beta |-> qb, num_dim |-> d]
-    IN Emit(Append(heap, o), Step("NewFactor", a, NoObj, NextId, ExpectObj(o), 0, NoObj, NoObj))
+        a  == CASE cls = "Factor" -> [cls |-> cls, Lambda |-> qL, nu |-> qn, ln_beta |-> qb, omit |-> OmitSeq(om)]
+                [] cls = "Rank1"  -> [cls |-> cls, v |-> qv, g |-> qg, nu |-> qn, ln_beta |-> qb, omit |-> OmitSeq(om)]
+                [] cls = "Linear" -> [cls |-> cls, nu |-> qn, ln_beta |-> qb, omit |-> OmitSeq(om)]
+                [] cls = "Const"  -> [cls |-> cls, ln_beta |-> qb, num_dim |-> d, omit |-> OmitSeq(om)]
+    IN /\ om \subseteq FactorOptional(cls)
+       /\ Emit(Append(heap, o), Step("NewFactor", a, NoObj, NextId, ExpectObj(o), 0, NoObj, NoObj))
+ANewFactor(cls, d, R, s) == ANewFactorO(cls, d, R, s, {})
 
 \* constructors from explicitly given exact records (used by the trace specification, where the arguments come from
 \* a recorded execution instead of a menu)
